@@ -3,17 +3,19 @@ import GdcVerif.Model.JpegLossless
   Model of /repo/jpeg/standard/optimal_huffman.go `BuildOptimalHuffmanTable`
   (libjpeg's jpeg_gen_optimal_table / T.81 Annex K.2), code-shaped.
 
-  `bits` is the Go array `[maxHuffmanCodeLength + 1]int` = 33 entries: `bits[size]++` with
-  `size > 32` is an index panic in Go — the `panic` outcome here.  The `for symbol >= 0` walks of
-  `incrementCodeSize` / `lastBranchSymbol` follow the `others` links; they terminate in Go because
+  `bits` is the Go array `[maxHuffmanCodeLength + 1]int` = 257 entries (`maxHuffmanCodeLength = 256`
+  since fix PENDING:c11-huffman-depth-over-32; it was 32, i.e. 33 entries): `bits[size]++` with `size > 256`
+  would be an index panic in Go — the `panic` outcome here, kept explicit; `buildOptimal_total` shows
+  it is unreachable (a tree over 256 symbols + the pseudo-symbol is at most 256 levels deep).
+  The `for symbol >= 0` walks of `incrementCodeSize` / `lastBranchSymbol` follow the `others` links; they terminate in Go because
   the links form disjoint finite chains.  The model walks with fuel 257 (one more than the
   longest possible chain) and reports fuel exhaustion as `err` (= "would not terminate"); the
-  theorems show neither `panic` nor `err` is reachable for the lossless alphabet.
+  theorems show neither `panic` nor `err` is reachable for any 256 frequencies.
   uint64 frequency sums are modelled in `Nat` (sums of at most 257 counts ≤ 2^32 each cannot wrap).
 -/
 namespace JLL.Opt
 
-def maxLen : Nat := 32      -- maxHuffmanCodeLength
+def maxLen : Nat := 256     -- maxHuffmanCodeLength
 
 /-- `smallestFrequencySymbol(freq, excluded)`: last index among the minimal non-zero entries
     (`value <= smallest`), -1 if none -/
@@ -70,18 +72,18 @@ def mergeLoop : Nat → St → Outcome St
       mergeLoop fuel { freq := freq, codeSize := cs2, others := others }
     | _, _ => .panic
 
-/-- `for _, size := range codeSize { if size > 0 { bits[size]++ } }` over `bits [33]int` -/
+/-- `for _, size := range codeSize { if size > 0 { bits[size]++ } }` over `bits [257]int` -/
 def countSizes : List Nat → Array Int → Outcome (Array Int)
   | [], bits => .ok bits
   | size :: rest, bits =>
     if size > 0 then
       match bits[size]? with
       | some b => countSizes rest (bits.setIfInBounds size (b + 1))
-      | none => .panic                      -- bits[size] with size > 32
+      | none => .panic                      -- bits[size] with size > 256
     else countSizes rest bits
 
 /-- inner `for bits[size] > 0 { … }` of the length-limiting loop (Figure K.3); every index is
-    within [0, 32] for size in 17..32 except `prefixSize` running below 0 -/
+    within [0, 256] for size in 17..256 except `prefixSize` running below 0 -/
 def limitAt (size : Nat) : Nat → Array Int → Outcome (Array Int)
   | 0, _ => .err
   | fuel + 1, bits =>
@@ -111,14 +113,15 @@ def limitAt (size : Nat) : Nat → Array Int → Outcome (Array Int)
         | .panic => .panic
       else .ok bits
 
-/-- `for size := 32; size > 16; size-- { … }` -/
+/-- `for size := 256; size > 16; size-- { … }`; the inner loop removes 2 from `bits[size]` per round
+    and the entries sum to at most 257, so 300 rounds of fuel suffice -/
 def limitLoop : List Nat → Array Int → Outcome (Array Int)
   | [], bits => .ok bits
   | size :: rest, bits => do
     let b ← limitAt size 300 bits
     limitLoop rest b
 
-/-- `for size := 32; size > 0; size-- { if bits[size] > 0 { bits[size]--; break } }` -/
+/-- `for size := 256; size > 0; size-- { if bits[size] > 0 { bits[size]--; break } }` -/
 def removePseudo : List Nat → Array Int → Array Int
   | [], bits => bits
   | size :: rest, bits =>
@@ -126,7 +129,7 @@ def removePseudo : List Nat → Array Int → Array Int
     | some b => if b > 0 then bits.setIfInBounds size (b - 1) else removePseudo rest bits
     | none => bits
 
-/-- `for size := 1; size <= 32; size++ { for symbol := 0; symbol < 256; symbol++ { if codeSize[symbol] == size { append } } }` -/
+/-- `for size := 1; size <= 256; size++ { for symbol := 0; symbol < 256; symbol++ { if codeSize[symbol] == size { append } } }` -/
 def sortValues (codeSize : Array Nat) : List Nat :=
   (List.range' 1 maxLen).flatMap fun size =>
     (List.range 256).filter fun symbol => codeSize[symbol]? = some size
@@ -136,7 +139,7 @@ def buildOptimal (frequencies : List Nat) : Outcome (List Int × List Nat) := do
   let freq := (frequencies ++ [1]).toArray          -- freq[256] = 1 (pseudo-symbol)
   let st ← mergeLoop 258 { freq := freq, codeSize := Array.replicate 257 0, others := Array.replicate 257 (-1) }
   let bits ← countSizes st.codeSize.toList (Array.replicate (maxLen + 1) (0 : Int))
-  let bits ← limitLoop ((List.range' 17 16).reverse) bits
+  let bits ← limitLoop ((List.range' 17 240).reverse) bits
   let bits := removePseudo ((List.range' 1 maxLen).reverse) bits
   pure ((bits.toList.drop 1).take 16, sortValues st.codeSize)   -- table.Bits[size-1] = bits[size], size = 1..16
 
